@@ -421,6 +421,8 @@ func c19Builtin(p *Program, r *Report) {
 	c19LenIsLen(p, r)
 	// R14: a builtin that tells numeric kinds apart by a kind switch has an arm for every kind of a class it has arms for
 	// (today the conversions go through reflect's ConvertibleTo and there is no such switch: the rule arms itself when one appears)
+	r.Explain("R15 a builtin narrows a rune or wider integer to a byte only under an upper-bound test against at most 0x7F (text is built through string(rune), UTF-8).")
+	c19RuneToByte(p, r)
 	r.Explain("R14 a kind switch in a builtin that has arms for most kinds of a numeric class (signed, unsigned, float) has arms for all of them.")
 	if csp := p.SSAPkg("core"); csp != nil {
 		n := kindSwitchesComplete(p, r, SrcFuncs(csp), "C19.R14")
@@ -1495,4 +1497,64 @@ func c19LenIsLen(p *Program, r *Report) {
 		}
 	}
 	r.Floor("C19.R13", n, 1)
+}
+
+// c19RuneToByte (R15): a character becomes text through Go's string(rune) conversion (UTF-8). A builtin that narrows a rune (or
+// any wider integer) to a byte and builds text from it is right for ASCII only: the narrowing must lie under an upper-bound
+// test of that very value against at most 0x7F (`< 0x80`, utf8.RuneSelf). 0x80..0xFF as single bytes are not characters
+// but invalid UTF-8. Evaluated over package core; no such narrowing exists today and the rule says so.
+func c19RuneToByte(p *Program, r *Report) {
+	csp := p.SSAPkg("core")
+	if csp == nil {
+		return
+	}
+	n := 0
+	for _, fn := range SrcFuncs(csp) {
+		k := 0
+		for _, b := range fn.Blocks {
+			for _, in := range b.Instrs {
+				cv, ok := in.(*ssa.Convert)
+				if !ok {
+					continue
+				}
+				to, ok1 := cv.Type().Underlying().(*types.Basic)
+				from, ok2 := cv.X.Type().Underlying().(*types.Basic)
+				if !ok1 || !ok2 || to.Kind() != types.Uint8 || from.Info()&types.IsInteger == 0 || from.Kind() == types.Uint8 || from.Kind() == types.Int8 {
+					continue
+				}
+				if _, isConst := cv.X.(*ssa.Const); isConst {
+					continue
+				}
+				k++
+				n++
+				bounded := false
+				for d := b; d != nil && d.Idom() != nil; d = d.Idom() {
+					id := d.Idom()
+					iff, ok := id.Instrs[len(id.Instrs)-1].(*ssa.If)
+					if !ok {
+						continue
+					}
+					bo, ok := iff.Cond.(*ssa.BinOp)
+					if !ok || bo.X != cv.X {
+						continue
+					}
+					c, ok := bo.Y.(*ssa.Const)
+					if !ok || c.Value == nil {
+						continue
+					}
+					K := c.Int64()
+					switch {
+					case bo.Op == token.LSS && K <= 128 && edgeOnly(id, 0, d), bo.Op == token.LEQ && K <= 127 && edgeOnly(id, 0, d),
+						bo.Op == token.GEQ && K <= 128 && edgeOnly(id, 1, d), bo.Op == token.GTR && K <= 127 && edgeOnly(id, 1, d):
+						bounded = true
+					}
+				}
+				r.Check(bounded, "C19.R15", fmt.Sprintf("%s|integer narrowed to a byte #%d only below 0x80", funcName(fn), k), p.Pos(instrPos(cv)), "under an upper-bound test against at most 0x7F",
+					"a rune or wider integer is narrowed to a byte without a test that it is below 0x80: for 0x80..0xFF the text built from that byte is invalid UTF-8, not the character Go's string conversion gives (toChar(233) must be \"é\")")
+			}
+		}
+	}
+	if n == 0 {
+		r.OK("C19.R15", "core|no integer is narrowed to a byte", "core", "characters become text through string(rune) only")
+	}
 }
